@@ -1168,3 +1168,160 @@ Proof.
   - apply IH in HR. destruct HR as (evs' & -> & Hf). cbn [rev]. rewrite <- app_assoc. cbn [app].
     eexists. split; [reflexivity|]. constructor; [exact I|exact Hf].
 Qed.
+
+(* ================================================================== *)
+(** * 9. Operation-granularity executions feed turn programs             *)
+
+(** what is left of a program after some answers *)
+Fixpoint residual (p : prog) (rs : list resp) {struct rs} : option prog :=
+  match rs with
+  | [] => Some p
+  | x :: rs' =>
+      match p, x with
+      | PRead k, RRead a => residual (k a) rs'
+      | PSess k, RSess ok => residual (k ok) rs'
+      | PCas _ _ _ k, RCas c => residual (k c) rs'
+      | PClose k, RClose => residual k rs'
+      | _, _ => None
+      end
+  end.
+
+Lemma residual_app p : forall rs1 rs2 q,
+  residual p rs1 = Some q -> residual p (rs1 ++ rs2) = residual q rs2.
+Proof.
+  intros rs1. revert p. induction rs1 as [|x rs1 IH]; intros p rs2 q H; cbn [residual app] in *.
+  - inversion H. reflexivity.
+  - destruct p as [s pn|k|k|self old tick k|k]; destruct x as [a|ok|c|]; try discriminate; apply IH; exact H.
+Qed.
+
+Lemma residual_done_feed p : forall rs s pn, residual p rs = Some (PDone s pn) -> feed p rs = Some (s, pn).
+Proof.
+  intros rs. revert p. induction rs as [|x rs IH]; intros p s pn H; cbn [residual] in H.
+  - inversion H. reflexivity.
+  - destruct p as [s0 pn0|k|k|self old tick k|k]; destruct x as [a|ok|c|]; try discriminate; cbn [feed]; apply IH; exact H.
+Qed.
+
+(** every server that is inside a turn is executing what is left of
+    [turn_prog] of its pre-turn state after the answers it has received *)
+Definition turns_ok (thr : N) (y : ocfg) : Prop :=
+  forall i s p, nth_error (oc_pool y) i = Some (mkO s (Some p)) ->
+    exists tick rs, residual (turn_prog thr s tick) rs = Some p /\
+                    match p with PDone _ _ => False | _ => True end.
+
+Lemma turn_prog_not_done thr s tick : match turn_prog thr s tick with PDone _ _ => False | _ => True end.
+Proof. unfold turn_prog, leader_main, follower_main. destruct (s_role s); exact I. Qed.
+
+Lemma settle_cases p old :
+  (exists s pn, p = PDone s pn /\ settle p old = mkO s None) \/
+  (match p with PDone _ _ => False | _ => True end /\ settle p old = mkO old (Some p)).
+Proof. destruct p; cbn [settle]; eauto. Qed.
+
+(** one operation: the invariant is kept, and a turn that ends has been fed *)
+Lemma ostep_turns_ok thr c y :
+  turns_ok thr y ->
+  turns_ok thr (fst (ostep thr c y)) /\
+  (forall i s p s', nth_error (oc_pool y) i = Some (mkO s (Some p)) ->
+     nth_error (oc_pool (fst (ostep thr c y))) i = Some (mkO s' None) ->
+     exists tick rs pn, feed (turn_prog thr s tick) rs = Some (s', pn)).
+Proof.
+  intros HI.
+  (* generic update of entry j with the settled continuation q of a server whose program was p *)
+  assert (HU : forall j s p q r',
+     nth_error (oc_pool y) j = Some (mkO s (Some p)) ->
+     (forall tick rs, residual (turn_prog thr s tick) rs = Some p -> exists x, residual (turn_prog thr s tick) (rs ++ [x]) = Some q) ->
+     turns_ok thr (mkOC r' (upd (oc_pool y) j (settle q s))) /\
+     (forall i s0 p0 s', nth_error (oc_pool y) i = Some (mkO s0 (Some p0)) ->
+        nth_error (upd (oc_pool y) j (settle q s)) i = Some (mkO s' None) ->
+        exists tick rs pn, feed (turn_prog thr s0 tick) rs = Some (s', pn))).
+  { intros j s p q r' Hj Hq.
+    destruct (HI _ _ _ Hj) as (tick & rs & Hres & _).
+    destruct (Hq tick rs Hres) as (x & Hres').
+    split.
+    - intros i s0 p0 Hi. cbn [oc_pool] in Hi. apply nth_error_upd in Hi. destruct Hi as [[E1 E2]|[E1 E2]].
+      + subst i. destruct (settle_cases q s) as [(s1 & pn & Eq & Es)|[Hnd Es]]; rewrite Es in E2; inversion E2; subst.
+        exists tick, (rs ++ [x]). split; [exact Hres'|exact Hnd].
+      + eapply HI. exact E2.
+    - intros i s0 p0 s' Hi Hi'. apply nth_error_upd in Hi'. destruct Hi' as [[E1 E2]|[E1 E2]].
+      + subst i. rewrite Hj in Hi. inversion Hi; subst s0 p0.
+        destruct (settle_cases q s) as [(s1 & pn & Eq & Es)|[Hnd Es]]; rewrite Es in E2; inversion E2; subst.
+        exists tick, (rs ++ [x]), pn. apply residual_done_feed. exact Hres'.
+      + rewrite Hi in E2. discriminate. }
+  destruct c as [i tick|i f]; cbn [ostep].
+  - destruct (nth_error (oc_pool y) i) as [[s [p|]]|] eqn:Hi; cbn [fst]; try (split; [exact HI|intros i0 s0 p0 s' H1 H2; rewrite H1 in H2; discriminate]).
+    split.
+    + intros j s0 p0 Hj. cbn [oc_pool] in Hj. apply nth_error_upd in Hj. destruct Hj as [[E1 E2]|[E1 E2]].
+      * subst j. pose proof (turn_prog_not_done thr s tick) as Hnd.
+        destruct (settle_cases (turn_prog thr s tick) s) as [(s1 & pn & Eq & Es)|[_ Es]].
+        -- rewrite Eq in Hnd. contradiction.
+        -- rewrite Es in E2. inversion E2; subst. exists tick, []. split; [reflexivity|exact Hnd].
+      * eapply HI. exact E2.
+    + intros j s0 p0 s' Hj Hj'. cbn [oc_pool] in Hj'. apply nth_error_upd in Hj'. destruct Hj' as [[E1 E2]|[E1 E2]].
+      * subst j. rewrite Hi in Hj. discriminate.
+      * rewrite Hj in E2. discriminate.
+  - destruct (nth_error (oc_pool y) i) as [[s [p|]]|] eqn:Hi; cbn [fst]; try (split; [exact HI|intros i0 s0 p0 s' H1 H2; rewrite H1 in H2; discriminate]).
+    destruct p as [s1 pn|k|k|self old tick k|k].
+    + exfalso. destruct (HI _ _ _ Hi) as (_ & _ & _ & Hnd). exact Hnd.
+    + cbn [fst oc_pool]. apply (HU i s (PRead k)); [exact Hi|].
+      intros tick rs Hres. eexists (RRead _). rewrite (residual_app _ _ _ _ Hres). reflexivity.
+    + cbn [fst oc_pool]. apply (HU i s (PSess k)); [exact Hi|].
+      intros tick rs Hres. eexists (RSess _). rewrite (residual_app _ _ _ _ Hres). reflexivity.
+    + destruct (cas_resp f (oc_rec y) self old tick) as [r' a]. cbn [fst oc_pool].
+      apply (HU i s (PCas self old tick k)); [exact Hi|].
+      intros tick0 rs Hres. eexists (RCas _). rewrite (residual_app _ _ _ _ Hres). reflexivity.
+    + cbn [fst oc_pool]. apply (HU i s (PClose k)); [exact Hi|].
+      intros tick rs Hres. exists RClose. rewrite (residual_app _ _ _ _ Hres). reflexivity.
+Qed.
+
+Lemma turns_ok_new thr ids : turns_ok thr (new_ocfg ids).
+Proof.
+  intros i s p H. unfold new_ocfg in H. cbn [oc_pool] in H. rewrite nth_error_map in H.
+  destruct (nth_error ids i); cbn in H; [inversion H|discriminate].
+Qed.
+
+Lemma turns_ok_oexec thr cs : forall y, turns_ok thr y -> turns_ok thr (oexec thr cs y).
+Proof.
+  induction cs as [|c cs IH]; intros y Hy; cbn [oexec]; [exact Hy|].
+  apply IH. apply ostep_turns_ok. exact Hy.
+Qed.
+
+(** holder-only in an arbitrary operation-granularity execution from fresh
+    managers: whenever an operation completes a turn of server [i] and leaves it
+    leader, the answers that turn received contain a lookup answer naming [i]'s
+    own instance id (and the id did not change) *)
+Theorem o_holder_only thr ids cs c i s p s' :
+  let y := oexec thr cs (new_ocfg ids) in
+  nth_error (oc_pool y) i = Some (mkO s (Some p)) ->
+  nth_error (oc_pool (fst (ostep thr c y))) i = Some (mkO s' None) ->
+  s_role s' = Leader ->
+  exists tick rs pn, feed (turn_prog thr s tick) rs = Some (s', pn) /\ read_own (s_id s) rs /\ s_id s' = s_id s.
+Proof.
+  intros y Hi Hi' HL.
+  assert (HI : turns_ok thr y) by (apply turns_ok_oexec, turns_ok_new).
+  destruct (ostep_turns_ok thr c y HI) as [_ HE].
+  destruct (HE _ _ _ _ Hi Hi') as (tick & rs & pn & Hf).
+  exists tick, rs, pn. split; [exact Hf|]. eapply holder_only; eassumption.
+Qed.
+
+(** step-down at operation granularity: a leader that has started its turn and
+    whose lookup fails or names somebody else is a follower, between turns, right
+    after that lookup; the record is untouched *)
+Theorem o_step_down thr y i s tick f :
+  nth_error (oc_pool y) i = Some (mkO s (Some (turn_prog thr s tick))) ->
+  s_role s = Leader ->
+  (f <> FOk \/ fst (lookup (oc_rec y)) <> s_id s) ->
+  exists s', nth_error (oc_pool (fst (ostep thr (COp i f) y))) i = Some (mkO s' None) /\
+             s_role s' = Follower /\ s_id s' = s_id s /\ oc_rec (fst (ostep thr (COp i f) y)) = oc_rec y.
+Proof.
+  intros Hi Hrole Hbad. cbn [ostep]. rewrite Hi. unfold turn_prog. rewrite Hrole. unfold leader_main.
+  cbn [fst oc_pool oc_rec].
+  assert (HA : read_resp f (oc_rec y) = None \/
+               exists h t, read_resp f (oc_rec y) = Some (h, t) /\ h <> s_id s).
+  { unfold read_resp. destruct Hbad as [Hb|Hb].
+    - destruct f; [congruence|left; reflexivity|left; reflexivity].
+    - destruct f; [|left; reflexivity|left; reflexivity].
+      right. destruct (lookup (oc_rec y)) as [h t]. exists h, t. auto. }
+  destruct HA as [HA|(h & t & HA & Hne)]; rewrite HA.
+  - cbn [settle]. eexists. split; [eapply nth_error_upd_same; exact Hi|]. cbn. auto.
+  - rewrite (neqb_false _ _ Hne). cbn [negb settle].
+    eexists. split; [eapply nth_error_upd_same; exact Hi|]. cbn. auto.
+Qed.
